@@ -303,6 +303,24 @@ func c14Check(c c14Case) error {
 	if dm := rig.DiffMem(ma, mc, 4); len(dm) > 0 {
 		return fmt.Errorf("running with a failing Logger changed memory at $%06X", dm[0])
 	}
+	// run D: a Logger that also offers Reserve(int) and Commit() (the optional interfaces RunUntil looks for)
+	md := load(scpu)
+	rw := &reservingWriter{}
+	sys.Logger = rw
+	p = rig.Safe(func() error { sys.RunUntil(never, budget); return nil })
+	sys.Logger = nil
+	if p != nil {
+		return fmt.Errorf("RunUntil with a reserving Logger failed: %v", p)
+	}
+	if rd := scpu.Raw(); rd != ra {
+		return fmt.Errorf("running with a Logger that implements Reserve/Commit changed the final state (budget %d cycles): traced %+v, untraced %+v", budget, rd, ra)
+	}
+	if dm := rig.DiffMem(ma, md, 4); len(dm) > 0 {
+		return fmt.Errorf("running with a reserving Logger changed memory at $%06X", dm[0])
+	}
+	if rw.lines != lw.n {
+		return fmt.Errorf("a Logger with Reserve/Commit received %d lines, a plain one %d", rw.lines, lw.n)
+	}
 	// expected lines
 	mt := load(twin)
 	var cyc uint64
@@ -332,6 +350,12 @@ func c14Check(c c14Case) error {
 	}
 	return nil
 }
+
+type reservingWriter struct{ lines, reserved, commits int }
+
+func (w *reservingWriter) Write(p []byte) (int, error) { w.lines++; return len(p), nil }
+func (w *reservingWriter) Reserve(n int)               { w.reserved += n }
+func (w *reservingWriter) Commit()                     { w.commits++ }
 
 type failingWriter struct{ okLines, n int }
 
@@ -440,6 +464,9 @@ func TestC14(t *testing.T) {
 				m.DoLog = true
 				syn.Mem = m
 				n := 1 + d.Intn("steps", rig.Pick(24, 64))
+				if d.Intn("long", 4) == 0 {
+					n += 60 // budgets beyond 256 cycles
+				}
 				var cyc int
 				for k := 0; k < n; k++ {
 					st := twin.Arch()
